@@ -62,8 +62,8 @@ theorem lineinfo_excerpt (w : Nat → Nat) (str : Bytes) (hne : str ≠ []) (q :
 
 /-- **`lineinfo_correct` — valid UTF-8 lines, offending byte inside a rune.** For every non-empty
     text, width function and 1-based offset `q+1`: if the offending byte's line is a sequence of
-    complete runes (`RuneChunk`: byte chunks `utf8.DecodeRune` accepts as one rune; U+FFFD excluded,
-    see `lineinfo_ufffd_counterexample`) and the offending byte is byte `j` of the rune `c`, then
+    complete runes (`RuneChunk`: byte chunks `utf8.DecodeRune` accepts as one rune, U+FFFD included
+    since the fix 0d1dca4, see `lineinfo_ufffd_regression`) and the offending byte is byte `j` of the rune `c`, then
     `getLineByOffset` returns: the line number 1 + terminators before the byte; an excerpt made of
     whole runes — a suffix `pre'` of the runes before `c`, `c` itself, a prefix `post'` of the runes
     after it (so it is a substring of the line that contains the offending rune and is cut on rune
@@ -108,15 +108,15 @@ theorem lineinfo_correct_line_end (w : Nat → Nat) (str : Bytes) (hne : str ≠
   simp only [getLineByOffset, heq, hline, hex, List.take_length]
   rw [strWidth_flatten w pre' (fun x hx => hrunes x (by rw [h1]; simp [hx]))]
 
-/-- The hypothesis "no U+FFFD" of `lineinfo_correct` is necessary: `trimLastInvalidRune` takes a
-    literal U+FFFD (EF BF BD, valid UTF-8) at the end of a prefix for an invalid rune and drops it,
-    so with `["<U+FFFD><TAB>"]` and the error at the TAB (offset 6) the caret's prefix is `["`,
-    column 2, instead of `["<U+FFFD>`, column 3. The harness reports it on the command under the
-    key `lineinfo:ufffd-before-fault`. -/
-theorem lineinfo_ufffd_counterexample :
+/-- Regression witness for the defect fixed in 0d1dca4: a literal U+FFFD (EF BF BD, valid UTF-8)
+    right before the offending byte used to be taken for an invalid rune and trimmed from the
+    caret's prefix. With `["<U+FFFD><TAB>"]` and the error at the TAB (offset 6) the caret's prefix
+    is now `["<U+FFFD>`, column 3 (it was column 2). Instance of `lineinfo_correct`. -/
+theorem lineinfo_ufffd_regression :
     getLineByOffset (fun _ => 1) [0x5B, 0x22, 0xEF, 0xBF, 0xBD, 0x09, 0x22, 0x5D] 6
-      = ([0x5B, 0x22, 0xEF, 0xBF, 0xBD, 0x09, 0x22, 0x5D], 1, 2) ∧
-    strWidth (fun _ => 1) [0x5B, 0x22, 0xEF, 0xBF, 0xBD] = 3 := by decide
+      = ([0x5B, 0x22, 0xEF, 0xBF, 0xBD, 0x09, 0x22, 0x5D], 1, 3) ∧
+    RuneChunk [0xEF, 0xBF, 0xBD] := by
+  exact ⟨by decide, by decide, by decide⟩
 
 /-- ASCII lines, byte-exact form: the excerpt is exactly `L[o0-48 : o0-48+64]`, the caret's byte
     index is exactly the offending byte's position in the excerpt (or the excerpt's end when the
@@ -249,7 +249,7 @@ example : NoLoneCR [97, 13, 10, 98] := by
   | j + 4 => simp at hj
 example : traceOK 8 0 0 [.read 8, .decoded 1, .decoded 3] := by simp [traceOK]
 example : RuneChunk [0xE6, 0xBC, 0xA2] ∧ RuneChunk [0x61] :=
-  ⟨⟨by decide, by decide, by decide⟩, ⟨by decide, by decide, by decide⟩⟩
+  ⟨⟨by decide, by decide⟩, ⟨by decide, by decide⟩⟩
 -- `lineinfo_correct`'s hypotheses are satisfiable: "a漢b" (61 E6BCA2 62), offending byte = 2nd byte of 漢
 example : trueLine [0x61, 0xE6, 0xBC, 0xA2, 0x62] (min 2 4) = (([[0x61]] : List Bytes) ++ [0xE6, 0xBC, 0xA2] :: [[0x62]]).flatten ∧
     2 - lineStart [0x61, 0xE6, 0xBC, 0xA2, 0x62] (min 2 4) = ([[0x61]] : List Bytes).flatten.length + 1 := by decide
